@@ -12,7 +12,7 @@ from mc.gen import render
 
 ID = "C14"
 LEVEL = "fault_enumeration"
-LEVEL_TEXT = ("Complete enumeration of valid generated program x every statement position (top level and inside blocks, named scopes, loop bodies, taken .if branches and bodies of applied macros; every top-level variant also with the whole program in an .include'd file) x 60 classes of definite error "
+LEVEL_TEXT = ("Complete enumeration of valid generated program x every statement position (top level and inside blocks, named scopes, loop bodies, taken .if branches and bodies of applied macros; every top-level variant also with the whole program in an .include'd file) x 67 classes of definite error (plus source files that are not valid UTF-8) "
               "(bad character, bad size suffix, bad index register, unterminated string, unterminated comment, missing closing brace, "
               "stray token, undefined symbol in an operand / in data, undefined macro, too few macro arguments, addressing mode or "
               "width the mnemonic lacks, branch out of range, *= to an unmapped bank, missing .include/.incbin/.table/.include_ips "
@@ -87,6 +87,14 @@ FAULTS = {
     "if-with-unsupported-operator-ne": ".if 2 != 1 {\n.db 1\n} .else {\n.db 2\n}",
     "if-with-unsupported-operator-gt": ".if 2 > 1 {\n.db 1\n}",
     "data-with-unsupported-operator": ".db 2 > 1",
+    # blocks of directives that are never closed; an immediate too wide for the register without a size suffix
+    "unclosed-if-block": ".if 1 {\n.db 1",
+    "unclosed-else-block": ".if 0 {\n.db 1\n} else {\n.db 2",
+    "unclosed-for-block": ".for c14q := 0, 2 {\n.db 1",
+    "unclosed-macro-block": ".macro c14unclosed(a) {\n.db a",
+    "unclosed-scope-block": ".scope c14sc {\n.db 1",
+    "unsized-immediate-wider-than-the-register": "lda #0x12345",
+    "unsized-index-immediate-wider-than-the-register": "ldx #0x123456",
     # a file that an EARLIER assembly in this process read successfully and that was deleted since
     "deleted-incbin": ".incbin 'gone.bin'",
     "deleted-include": ".include 'gone.s'",
@@ -127,7 +135,7 @@ def setup(tier, seed):
 
 
 def bound(tier):
-    return "7 base programs x every top-level and nested position x 60 error classes x 5 in-process entry points; 60 x 2 real CLI processes; controls"
+    return "7 base programs x every top-level and nested position x 67 error classes x 5 in-process entry points; 67 x 2 real CLI processes; controls"
 
 
 def base_programs():
@@ -156,6 +164,7 @@ def cases(tier, seed):
         for fmt in ("ips", "sfc"):
             for name in (base_programs() if tier == "thorough" else ["simple"]):
                 yield ("process", f, fmt, name)
+    yield ("undecodable",)
 
 
 def describe(case, res):
@@ -293,9 +302,11 @@ def run_fault(name, fault):
     for pos in range(n_top + 1):
         if fault == "branch-out-of-range" and pos < 2:
             continue  # needs the anchor label (and a position) before it
+        if fault.startswith("unclosed-") and pos != n_top:
+            continue  # an unclosed block swallows what follows: the definite error is the one at the end of the source
         variants.append((pos, inject(prog, pos, FAULTS[fault])))
     for path in nested_positions(prog):
-        if fault == "missing-closing-brace":
+        if fault == "missing-closing-brace" or fault.startswith("unclosed-"):
             continue  # an unbalanced brace inside a body is still an error, but which construct it breaks is layout-dependent
         variants.append(("nested:" + "/".join(f"{i}.{k}" for i, k in path), inject_nested(prog, path, FAULTS[fault])))
     # the same faulty programs reached through .include: the whole program sits in an included file
@@ -369,7 +380,35 @@ def run_process(fault, fmt, name="simple"):
     return {"evals": 1, "nt_count": 1, "outcome": oc, "violations": viol}
 
 
+BAD_BYTES = [b"*=0x018000\nlda.b #0x1\xe92\nrts\n", b"*=0x018000\nr\xfftl\n", b"*=0x018000\n.db 1\n\x80\x81\x82 \xfe\xff\n.db 2\n",
+             b"\xff\xfe*\x00=\x000\x00", b"*=0x018000\n.ascii 'caf\xe9'\n"]
+
+
+def run_undecodable():
+    """Source files that are not valid UTF-8 (main file and included file) through the entry points that read files."""
+    viol = []
+    evals = 0
+    for k, data in enumerate(BAD_BYTES):
+        for where in ("main", "included"):
+            for entry in ("assemble", "assemble_as_patch", "cli-ips", "cli-sfc"):
+                if where == "main":
+                    failed, announced, detail = run_entry(entry, data, {})
+                else:
+                    failed, announced, detail = run_entry(entry, "*=0x018000\n.db 1\n.include 'bad.s'\n", {"bad.s": data})
+                evals += 1
+                if failed is None:
+                    viol.append({"key": "status:hang:undecodable-source-file", "msg": f"{entry} {where} #{k}: {detail}"})
+                elif not failed:
+                    viol.append({"key": f"status:failure-reported-as-success:{entry}:undecodable-source-file",
+                                 "msg": f"{entry} reported success ({detail}) for a {where} file that is not valid UTF-8: {data!r}"})
+                elif announced:
+                    viol.append({"key": f"status:success-announced-on-failure:{entry}:undecodable-source-file", "msg": f"{entry} {where} #{k}"})
+    return {"evals": evals, "nt_count": evals, "outcome": "undecodable-rejected" if not viol else "UNDECODABLE-ACCEPTED", "violations": viol[:10]}
+
+
 def run_case(case):
+    if case[0] == "undecodable":
+        return run_undecodable()
     if case[0] == "fault":
         return run_fault(case[1], case[2])
     if case[0] == "control":
